@@ -67,9 +67,10 @@ type Term struct {
 	S    string
 	Sort *Sort
 	T    types.Type // Go type when known (nil for pure ghost terms)
+	Cell bool       // st.vars only: the local's address was taken; S is the reference of its heap cell (T = pointer type)
 }
 
-func mkT(s string, so *Sort, t types.Type) Term { return Term{s, so, t} }
+func mkT(s string, so *Sort, t types.Type) Term { return Term{S: s, Sort: so, T: t} }
 
 // Registry of everything a query must declare.
 type Decls struct {
@@ -217,7 +218,7 @@ func (d *Decls) typeTag(t types.Type) int {
 }
 
 func typeShortName(t types.Type) string {
-	return sanitize(types.TypeString(t, func(p *types.Package) string { return p.Name() }))
+	return sanitize(types.TypeString(types.Unalias(t), func(p *types.Package) string { return p.Name() }))
 }
 
 func (d *Decls) inModule(p *types.Package) bool {
